@@ -81,6 +81,7 @@ def rand_desc(rng, with_backing=None, cbs=None, allow_v2=True, nclusters=None, c
                        backing_file='backing.img' if backing else None, l1_minimal=False, extensions=exts,
                        shuffle_seed=rng.randrange(1, 1 << 30) if rng.random() < 0.6 else None,
                        pack_compressed=rng.random() < 0.8)
+    d.junk_free = d.shuffle_seed is not None and rng.random() < 0.6
     return d
 
 
@@ -156,6 +157,14 @@ def write_images(d, cid, descs):
     truths = []
     for i, ds in enumerate(descs):
         img, tr = qimg.build(ds)
+        if getattr(ds, 'junk_free', False):
+            # free host clusters may hold anything: stale bytes must never show up in the guest
+            img = bytearray(img)
+            cs = tr['cluster_size']
+            for c, k in tr['refcounts'].items():
+                if k == 0 and (c + 1) * cs <= len(img):
+                    img[c * cs:(c + 1) * cs] = bytes([0x5A, c & 0xff, 0xC3, (c >> 8) & 0xff]) * (cs // 4)
+            img = bytes(img)
         p = os.path.join(d, '%s.img%d' % (cid, i))
         open(p, 'wb').write(img)
         paths.append(p)
